@@ -432,14 +432,18 @@ def load_known():
         return []
 
 
-def match_known(pid, ops):
-    """a finding matches if it is `known` (not fixed) for this property and each of its regexes
-    matches the corresponding op of the minimised script (same length)"""
+def match_known(pid, ops, impl_output=None):
+    """a finding matches if it is `known` (not fixed) for this property, each of its regexes matches the corresponding op of
+    the minimised script (same length) and - when the entry has one - its `impl_regex` matches what the implementation
+    printed (so that a different failure on the same input is still reported)"""
     for k in load_known():
         if k.get("property") != pid or not str(k.get("status", "")).startswith("known"):
             continue
         pats = k.get("ops_regex", [])
         if len(pats) == len(ops) and all(re.fullmatch(p, o) for p, o in zip(pats, ops)):
+            ir = k.get("impl_regex")
+            if ir is not None and (impl_output is None or not re.fullmatch(ir, str(impl_output))):
+                continue
             return k
     return None
 
